@@ -3,6 +3,7 @@ import GstVerif.Trans.Model
    t herm <y> <n> => <eta_0,…,eta_{n-1} of the library>      eta_k^2 k! = He_k(y)^2 and sign (-1)^k
    t mono <xs> <ys> =>                                       ys non-decreasing along increasing xs
    t close <what> <tol> <a> <b> =>                           |a_i - b_i| <= tol (round trips)
+   t ext <what> <a0> <p0> <a1> <p1> <x> => <v>               v = linear extension between practical and absolute bounds
 -/
 namespace GstVerif.Trans
 open GstVerif
@@ -32,12 +33,25 @@ def handle (args : List String) (impl : List String) : String :=
       | none => "ok"
       | some k => s!"bad Hermite polynomial {k} at y={fmtRat y}: library {fmtRat (vals.getD k 0)}, He_k={fmtRat (he.getD k 0)}"
     | _, _, _ => "bad-op"
+  -- t ext <what> <a_from> <p_from> <a_to> <p_to> <x> => <value returned by the library>
+  | ["ext", what, a0, p0, a1, p1, x], [v] =>
+    match parseQ? a0, parseQ? p0, parseQ? a1, parseQ? p1, parseQ? x, parseQ? v with
+    | some a0, some p0, some a1, some p1, some x, some v =>
+      if a0 = p0 then "skip degenerate-extension" else
+      let m := extend a0 p0 a1 p1 x
+      let scale := maxQ 1 (maxQ (absQ a1) (absQ p1))
+      if absQ (m - v) ≤ pow2 (-36) * scale then "ok"
+      else s!"bad {what}: beyond the practical bound the library returns {fmtApprox v}, the linear extension towards the absolute bound gives {fmtApprox m} (exact: {fmtRat v} vs {fmtRat m})"
+    | _, _, _, _, _, _ => "bad-op"
   | ["mono", what, xs, ys], _ =>
     match parseQs? xs, parseQs? ys with
     | some xs, some ys =>
       if xs.length ≠ ys.length then "bad-op" else
       let pairs := xs.zip ys
-      let viol := pairs.any fun (x1, y1) => pairs.any fun (x2, y2) => x1 < x2 && y1 > y2
+      -- values on a plateau (tied data) are interpolated in floating point: a decrease of a few units
+      -- of the last place is rounding, not a loss of monotonicity
+      let slack := pow2 (-40) * ys.foldl (fun m v => maxQ m (absQ v)) 1
+      let viol := pairs.any fun (x1, y1) => pairs.any fun (x2, y2) => x1 < x2 && y1 > y2 + slack
       if viol then s!"bad {what}: the transform is not monotone" else "ok"
     | _, _ => "bad-op"
   | ["close", what, tol, a, b], _ =>
